@@ -102,12 +102,12 @@ Proof.
   assert (HE : so_end (scan true true c (firstn k (serialize pkts))) = tail_end c t).
   { unfold scan. rewrite Hf.
     destruct (scan_flat_spec c (length pre) pre t (scan_fuel (serialize pre ++ tail_bytes t)) (sinit (serialize pre ++ tail_bytes t)) 0
-                (le_n _) Hpre Hok (tail_len_fuel pre t Hpre Hok) (conj eq_refl eq_refl)) as (st' & H).
+                (le_n _) Hpre Hok (tail_len_fuel pre t Hpre Hok) (conj eq_refl eq_refl)) as (st' & H & _).
     rewrite H. reflexivity. }
   split; [|split; [|split; [|split; [exact HE|rewrite HE; unfold tail_end; destruct (tail_loop c t); discriminate]]]].
   - unfold scan. rewrite Hf.
     destruct (scan_flat_spec c (length pre) pre t (scan_fuel (serialize pre ++ tail_bytes t)) (sinit (serialize pre ++ tail_bytes t)) 0
-                (le_n _) Hpre Hok (tail_len_fuel pre t Hpre Hok) (conj eq_refl eq_refl)) as (st' & H).
+                (le_n _) Hpre Hok (tail_len_fuel pre t Hpre Hok) (conj eq_refl eq_refl)) as (st' & H & _).
     rewrite H. cbn [so_batches]. unfold tail_off. rewrite N.add_0_l.
     unfold batches_of. destruct (tail_end c t); apply chunk_concat, CAP_pos.
   - destruct (c03_scan_exact_when true true eq_refl c pkts Hwf) as (_ & Hc & _). rewrite Hc.
